@@ -223,7 +223,7 @@ func roRun(p *core.Prog, r *core.Report, rule string) *roAnalysis {
 		}
 	}
 	r.Count("input_sources", nSrc)
-	r.Floor("input_sources", 12)
+	r.Floor("input_sources", 8)
 
 	// expandedAnalyzer(): for a document whose references resolve (any accepted document) this is the analyzer of
 	// the validator's private expanded copy; the fallback to the caller's document is only taken after reference
